@@ -880,6 +880,52 @@ func (e *xstore) do(op string) {
 				}
 			}
 		}
+	case "foreign":
+		// index.json rewritten the way other tools write a layout (and the way oras-go left it
+		// after GC before 34cefcb): only the tagged manifests and the manifests without a stored
+		// parent are listed; nested manifests are reachable through them only.  Followed by a reopen.
+		if e.ociSt == nil {
+			return
+		}
+		var entries []ocispec.Descriptor
+		var names []string
+		for nm := range e.tags {
+			names = append(names, nm)
+		}
+		sort.Strings(names)
+		for _, nm := range names {
+			d := e.u.g.Nodes[e.tags[nm]].Desc
+			d.Annotations = map[string]string{ocispec.AnnotationRefName: nm}
+			entries = append(entries, d)
+		}
+		var roots []string
+		for _, n := range e.u.g.Nodes {
+			if !n.IsManifest() || !e.stored[n.ID] || e.hasName(n.ID) {
+				continue
+			}
+			hasParent := false
+			for _, p := range e.u.expectedPreds(e.stored, n.ID) {
+				if e.u.g.Nodes[p].IsManifest() {
+					hasParent = true
+				}
+			}
+			if !hasParent {
+				entries = append(entries, n.Desc)
+				roots = append(roots, strconv.Itoa(n.ID))
+			}
+		}
+		ix := ocispec.Index{MediaType: ocispec.MediaTypeImageIndex, Manifests: entries}
+		ix.SchemaVersion = 2
+		if len(entries) == 0 {
+			ix.Manifests = []ocispec.Descriptor{}
+		}
+		data, _ := json.Marshal(ix)
+		if err := os.WriteFile(filepath.Join(e.root, "index.json"), data, 0o644); err != nil {
+			panic(err)
+		}
+		e.sops = append(e.sops, "F"+strings.Join(roots, "."))
+		run.Count("foreign-roots-only-index")
+		return
 	case "opt":
 		if e.fileSt != nil {
 			switch arg {
@@ -1432,6 +1478,9 @@ func genStore(r *common.Rand, kind string, origin string) {
 					e.do("reopen:" + common.Pick(r, []string{"dir", "fs", "tar"}))
 				}
 			}
+		case x < 84:
+			e.do("foreign")
+			e.do("reopen:" + common.Pick(r, []string{"dir", "dir", "dir", "fs", "tar"}))
 		default:
 			e.do("reopen:" + common.Pick(r, []string{"dir", "dir", "fs", "tar"}))
 		}
@@ -1723,9 +1772,15 @@ func genChain(r *common.Rand, origin string) {
 	}
 	e.do(fmt.Sprintf("tag:%d:root", top))
 	reopen := func() { e.do("reopen:" + common.Pick(r, []string{"dir", "dir", "fs", "tar"})) }
-	e.do("gc")
-	if r.Chance(3, 4) {
+	if r.Chance(1, 3) {
+		// the same layout as another tool would have written it
+		e.do("foreign")
 		e.do("reopen:dir")
+	} else {
+		e.do("gc")
+		if r.Chance(3, 4) {
+			e.do("reopen:dir")
+		}
 	}
 	// delete the parents from the top, sometimes reopening in between
 	for k := len(tower) - 1; k >= 0 && !e.failed; k-- {
